@@ -174,6 +174,17 @@ func (ex *Exec) termEq(x, y *smt.Term) *smt.Term {
 	return smt.Eq(x, y)
 }
 
+// isRandomVar: a fresh uniform draw from a range of at least 2^64 values.
+func isRandomVar(t *smt.Term) bool {
+	if t.Op != smt.OVar || !(strings.HasPrefix(t.Name, "rand!") || strings.HasPrefix(t.Name, "prime!")) {
+		return false
+	}
+	if t.Lo == nil || t.Hi == nil {
+		return false
+	}
+	return new(big.Int).Sub(t.Hi, t.Lo).BitLen() > 64
+}
+
 func isHashVar(t *smt.Term) bool {
 	return t.Op == smt.OVar && strings.HasPrefix(t.Name, "hash!")
 }
@@ -212,7 +223,7 @@ func (ex *Exec) genericZero(d *smt.Term, depth int) *smt.Term {
 	}
 	var h *smt.Term
 	ex.youngestVar(d, &h, map[int]bool{})
-	if h == nil || !isHashVar(h) || ex.birth[h.Name] == 0 {
+	if h == nil || !(isHashVar(h) || isRandomVar(h)) || ex.birth[h.Name] == 0 {
 		if os.Getenv("GSX_TRACE") != "" && depth == 0 {
 			n := "<none>"
 			if h != nil {
@@ -254,7 +265,11 @@ func (ex *Exec) genericZero(d *smt.Term, depth int) *smt.Term {
 			return nil
 		}
 	}
-	ex.stubs["random oracle genericity: a polynomial relation in a hash output whose other variables were fixed before the hash was computed holds only if all its coefficients vanish (or the output coincides, by equal inputs, with an earlier output)"] = true
+	if isHashVar(h) {
+		ex.stubs["random oracle genericity: a polynomial relation in a hash output whose other variables were fixed before the hash was computed holds only if all its coefficients vanish (or the output coincides, by equal inputs, with an earlier output)"] = true
+	} else {
+		ex.stubs["randomness genericity: a polynomial relation in a fresh uniform draw (range >= 2^64) whose other variables were fixed before the draw holds only if all its coefficients vanish (fails with probability <= degree/2^64)"] = true
+	}
 	alt := smt.False
 	var app *HashApp
 	for _, a := range ex.hashes {
